@@ -141,6 +141,14 @@ func c06Gen(rng *verifsim.RNG, idx int, tier string) *Plan {
 			Err: []string{"ENOBUFS", "ENETDOWN", "EINVAL"}[rng.Intn(3)]})
 		p.Class += "+failing-multicast"
 	}
+	if p.Class == "mixed-unicast" && rng.Bool(0.25) {
+		// the answer to one host cannot be transmitted (the host is gone, no
+		// buffers): whatever is done about it, no multicast RA comes closer than
+		// 3 s to another one on that connection
+		p.Faults = append(p.Faults, Fault{Seam: "write", Key: "uc", From: int64(rng.Dur(0, horizon)), Count: rng.Range(1, 2),
+			Err: []string{"ENOBUFS", "ENETDOWN", "EINVAL"}[rng.Intn(3)]})
+		p.Class += "+failing-unicast"
+	}
 	if p.Class == "mixed-unicast" && rng.Bool(0.4) {
 		// slow unicast transmissions: what one host's RA is waiting for must not
 		// hold up the multicast RAs (they are separate transmissions)
